@@ -37,4 +37,10 @@ CLAIMED = {
         "note": "Trusted: Lean kernel, translator, correspondence harness; Unicode lower-casing done by the harness (std) and checked against the implementation; prefix-hex/hex modelled; C10 trusted base.",
         "technique": "Lean 4 proof (shape + completeness of the parser on the constructor's output) over regenerated constants + correspondence",
     },
+    "C01": {
+        "text": "Lean 4 theorems about the decoder / verify model (header parser P and signature scheme V are parameters; header policy from C11 over regenerated tables; base64url proved a canonical bijection): every accepted compact token is s0.s1.s2 with dot-free segments, exactly one payload source, signing input = received protected segment ++ '.' ++ received payload, signature = base64url-decode of the received segment, claims = the payload (decoded unless b64=false), protected header = P(decode s0); the same for each signature of the JSON forms at member level; verify reports success only after V succeeded on exactly those bytes with alg from the protected header and the key's pinned alg (if any) equal; no alg in the protected header => never verified; the map token -> (message, signature) is injective on accepted tokens, so every accepted modification reaches the verifier differently. Tied to the code by a recording verifier that captures the bytes the real decoder hands over.",
+        "design_ref": "DESIGN.md §7.1",
+        "note": "Trusted: Lean kernel, translator (C11 tables), correspondence harness; serde header parsing as a table computed by the library; signature schemes unproved (parameter V); JSON envelope by correspondence.",
+        "technique": "Lean 4 proof (shape + injectivity, base64url bijection) + correspondence with a recording verifier",
+    },
 }
